@@ -31,6 +31,15 @@ func runReplay(path string) int {
 			}
 		}
 	}
+	if len(ops) == 1 && strings.HasPrefix(ops[0], "bigstream ") {
+		// self-describing case with its own oracle (no model side)
+		out := runBigStream(ops[0])
+		fmt.Printf("   %s\n     impl : %s\n     expect: ok <all documents, in order, unchanged after delivery>\n", ops[0], out)
+		if strings.HasPrefix(out, "ok ") {
+			return 0
+		}
+		return 1
+	}
 	st := newStore()
 	impl := make([]string, len(ops))
 	for i, op := range ops {
